@@ -4,8 +4,9 @@ import MidnightZK.Model.C18.Types
 
 `bincode` 2 with `config::standard()` (little endian, variable-length integers) applied to the
 derived `Encode`/`Decode` of `Program { instructions: Vec<Instruction> }`,
-`Instruction { operation, inputs, outputs }`, `Operation` and `IrType`. ASCII names only.
-Import-free.
+`Instruction { operation, inputs, outputs }`, `Operation` and `IrType`. Names are written as
+their UTF-8 bytes (`impl Encode for String`: `as_bytes().encode`). The decoder
+(`read_relation`) is in `BinDec.lean`. Import-free.
 -/
 namespace MidnightZK.C18
 
@@ -22,9 +23,15 @@ def encVarint (v : Nat) : List Nat :=
   else if v < 2 ^ 64 then 253 :: leBytes 8 v
   else 254 :: leBytes 16 v
 
+/-- `str::as_bytes`: the UTF-8 bytes of a name. -/
+def strBytes (s : String) : List Nat := s.toByteArray.data.toList.map UInt8.toNat
+
+/-- `String::from_utf8` on a byte string (`none` = not well-formed UTF-8). -/
+def bytesStr? (bs : List Nat) : Option String :=
+  String.fromUTF8? (ByteArray.mk (bs.map Nat.toUInt8).toArray)
+
 def encString (s : String) : List Nat :=
-  let cs := s.toList.map Char.toNat
-  encVarint cs.length ++ cs
+  encVarint (strBytes s).length ++ strBytes s
 
 def encStrings (l : List String) : List Nat :=
   encVarint l.length ++ l.flatMap encString
